@@ -69,7 +69,9 @@ func (pnf *PageNumberFinder) FindPagination(root *html.Node, pageURL *nurl.URL) 
 	url.RawPath = url.Path
 	strPageURL := stringutil.UnescapedString(&url)
 
-	paramInfo := pnf.FindOutlink(root, &url)
+	// Links are resolved against the page URL as it is, only the
+	// document URL is compared without its trailing slash.
+	paramInfo := pnf.findOutlink(root, pageURL, &url)
 	if paramInfo.Type != info.PageNumber {
 		return
 	}
@@ -138,6 +140,10 @@ func (pnf *PageNumberFinder) FindPagination(root *html.Node, pageURL *nurl.URL) 
 // around them. Returns PageParamInfo, always (never null). If no page parameter is detected or
 // determined to be best, its Type is info.Unset.
 func (pnf *PageNumberFinder) FindOutlink(root *html.Node, pageURL *nurl.URL) *info.PageParamInfo {
+	return pnf.findOutlink(root, pageURL, pageURL)
+}
+
+func (pnf *PageNumberFinder) findOutlink(root *html.Node, pageURL, docURL *nurl.URL) *info.PageParamInfo {
 	start := time.Now()
 
 	idx := 0
@@ -175,7 +181,7 @@ func (pnf *PageNumberFinder) FindOutlink(root *html.Node, pageURL *nurl.URL) *in
 	pnf.timingInfo.AddEntry(start, "PageParameterParser")
 
 	start = time.Now()
-	paramInfo := parser.DetectParamInfo(pnf.adjacentNumberGroups, pageURL.String(), pnf.logger)
+	paramInfo := parser.DetectParamInfo(pnf.adjacentNumberGroups, docURL.String(), pnf.logger)
 	pnf.timingInfo.AddEntry(start, "PageParameterDetector")
 
 	return paramInfo
